@@ -501,6 +501,9 @@ def build():
         "c15_snapshot_of_live_dict_fails.py",
         "a save whose snapshot fails (the owner changes the live dict while it is copied) does not stop later saves"))
     C.finite_checks.append(path_model_check)
+    C.finite_checks.append(common.native_demo_check(
+        'c15_rate_limited_save_lost_at_shutdown.py',
+        'a save that is still rate-limited at a clean shutdown is on disk after the process has exited'))
     C.finite_checks.append(native_check)
     C.ghost.update(dict(fs=MapS(Str, Int), faults=Int, stopped=Bool))
     CONTENT = z3.Function("content", usort("Data"), z3.IntSort())
